@@ -790,8 +790,16 @@ func streamErrors(e encEmitter) {
 			g.Emit("mardeep", e.bits(), k, strconv.Itoa(n))
 		}
 	}
-	for _, k := range []string{"LE", "LE.field", "LTE", "LTE.key"} {
-		g.Emit("marfail", e.bits(), k)
+	for _, k := range []string{"LE", "LE.field", "LTE", "LTE.key", "ikey.bad", "ikey.bad.mixed", "ikey.bad.field", "ikey.bad.ptr", "ikey.ok", "ikey.ok.one", "ikey.nil", "emb.mp", "emb.mp.ptr", "emb.mp.nil", "emb.mp.slice", "emb.mp.any"} {
+		b := e.bits()
+		if e.mode == "be" && strings.HasPrefix(k, "ikey") {
+			// several entries: the order is only defined with SortMapKeys
+			b = strconv.FormatUint(encMask(e.g.R.Intn(512)|1), 10)
+		}
+		g.Emit("marfail", b, k)
+		if e.mode != "std" && strings.HasPrefix(k, "ikey.bad") {
+			g.Emit("marfail", strconv.FormatUint(stdBits(), 10), k)
+		}
 	}
 	// programmable callbacks returning every text of the pool, at every kind of position
 	for _, n := range []string{"LJ", "LJP", "LT"} {
